@@ -97,6 +97,14 @@ def scenarios():
   S['factory-in-container-inside-positional-factory'] = (
       lambda: fdl.Partial(target, fdl.ArgFactory(target, [fdl.ArgFactory(Fresh)])),
       {'a': 'fresh-deep'})
+  import collections as _co
+  _Pair = _co.namedtuple('_Pair', ['fresh', 'fixed'])
+  S['factory-in-namedtuple-argument'] = (
+      lambda: fdl.Partial(target, a=_Pair(fdl.ArgFactory(Fresh), 1)), {'a': 'fresh'})
+  S['factory-in-defaultdict-argument'] = (
+      lambda: fdl.Partial(target, a=_co.defaultdict(list, k=[fdl.ArgFactory(Fresh)])), {'a': 'fresh'})
+  S['factory-in-namedtuple-inside-factory'] = (
+      lambda: fdl.Partial(target, a=fdl.ArgFactory(target, a=_Pair(fdl.ArgFactory(Fresh), 0))), {'a': 'fresh-deep'})
   S['factory-direct'] = (lambda: fdl.Partial(target, a=fdl.ArgFactory(Fresh)), {'a': 'fresh'})
   S['factory-in-list'] = (lambda: fdl.Partial(target, a=[fdl.ArgFactory(Fresh), 1]), {'a': 'fresh'})
   S['factory-in-tuple'] = (lambda: fdl.Partial(target, a=(fdl.ArgFactory(Fresh), 1)), {'a': 'fresh'})
